@@ -6,8 +6,8 @@ All theorems are about `Model/Downstream.lean` (the shared downstream machine re
 control flow from `pkg/proxy/downstream.go`, `upstream.go`, `retrystate.go`, `pkg/types`), for **every** configuration
 `c : Cfg` (one-way/two-way, body/trailers, every route outcome, every retry policy, every threshold), **every** ambient
 load `ar aq`, and **every** schedule `l : List Label` — an arbitrary interleaving of worker steps (one phase each), upstream
-responses, upstream resets with any reason, pool failures, per-try and global timer callbacks, downstream resets and
-connection closes.  Everything follows from `inv_run` (Lemmas/Downstream.lean) by induction on the schedule.
+responses, upstream resets with any reason, pool failures, per-try and global timer callbacks, downstream resets,
+connection closes and asynchronous `TerminateStream` calls on the parked worker.  Everything follows from `inv_run` (Lemmas/Downstream.lean) by induction on the schedule.
 -/
 namespace MosnVerif.Props.C03
 open MosnVerif.Model.Downstream MosnVerif.Gen.ProxyPhase MosnVerif.Gen.ProxyReason
@@ -104,6 +104,19 @@ theorem timeout_completes (c : Cfg) (ar aq : Nat) (l : List Label) (hb : blocked
   refine ⟨hf.2.2.1, ?_⟩
   simpa [reach, run, List.foldl_append, step] using this
 
+/-- **terminate_completes**: an asynchronous `TerminateStream(code)` called while the worker is parked and no response
+headers are stored is accepted, and three worker steps later the stream is cleaned, the worker has returned, and the
+client has received exactly the local reply `code` with the DownStreamTerminate flag in the access log. -/
+theorem terminate_completes (c : Cfg) (ar aq : Nat) (l : List Label) (code : Nat) (hb : blocked (reach c ar aq l) = true)
+    (hnr : (reach c ar aq l).resp.isSome = false) :
+    (reach c ar aq (l ++ [.terminate code, .work, .work, .work])).cleaned = true ∧
+    (reach c ar aq (l ++ [.terminate code, .work, .work, .work])).running = false ∧
+    (reach c ar aq (l ++ [.terminate code, .work, .work, .work])).trace =
+      ((reach c ar aq (l ++ [.terminate code])).trace ++ [Ev.dh code true]) ++
+        [Ev.log code ((reach c ar aq l).flags ||| DownStreamTerminate)] := by
+  have := terminate_run c ar aq _ code (inv_run c ar aq l) hb hnr
+  simpa [reach, run, List.foldl_append, step] using this
+
 /-- **error_reply_codes**: the MOSN-generated replies carry the codes and response flags of the regenerated tables:
 timeouts 504 + UpstreamRequestTimeout, pool overflow 503 + UpstreamOverflow, connection failure and upstream resets
 502 with their flags, a reason outside the table 500; no route 404 + NoRouteFound; no healthy upstream 502 +
@@ -144,6 +157,11 @@ example : (reach { retryOn := true, numRetries := 1, maxRetries := 1 } 0 0
     (List.replicate 12 .work ++ [.upResp 0 503 false false] ++ List.replicate 5 .work ++ [.upResp 1 200 true false] ++
       List.replicate 6 .work)).trace =
     [.un 0, .uh 0 true, .un 1, .uh 1 true, .dh 200 false, .dd true, .log 200 0] := by decide
+/-- terminate while parked on a retried attempt: the upstream request is reset, one reply, cleaned -/
+example : (reach { retryOn := true, numRetries := 1, maxRetries := 1 } 0 0
+    (List.replicate 12 .work ++ [.upReset 0 .StreamConnectionFailed] ++ List.replicate 5 .work ++ [.terminate 418] ++
+      List.replicate 3 .work)).trace =
+    [.un 0, .uh 0 true, .un 1, .uh 1 true, .ur 1, .dh 418 true, .log 418 DownStreamTerminate] := by decide
 /-- client gone while waiting: classified, not silent -/
 example : outcome {} (reach {} 0 0 (List.replicate 12 .work ++ [.downReset .StreamConnectionTermination, .work])) = .clientGone := by
   decide
